@@ -215,7 +215,9 @@ func ruleCliResponseKey(p *Prog, r *Out) {
 		r.bad("waiter", p.pos(f.Pos()), "dispatch no longer obtains the waiter from loadReq")
 		return
 	}
+	sinks := 0
 	for _, ci := range p.findCall(f, "(*Conn).readStream") {
+		sinks++
 		a := ci.Common().Args
 		d := p.vdescN(a[2], 3)
 		okk := false
@@ -224,6 +226,40 @@ func ruleCliResponseKey(p *Prog, r *Out) {
 		}
 		r.check(okk, "response sink is the waiter's", p.ipos(ci), "readStream(fr, r.Response)", "readStream is given "+d+" instead of the looked-up waiter's Response")
 		r.check(a[1] == ssa.Value(f.Params[1]), "readStream gets the same frame", p.ipos(ci), "same fr", "readStream is given another frame")
+	}
+	// or through a forwarding helper that is handed the frame and the waiter
+	for _, b := range f.Blocks {
+		for _, in := range b.Instrs {
+			ci, ok := in.(ssa.CallInstruction)
+			if !ok || !p.forwardsTo(in, "(*Conn).readStream") {
+				continue
+			}
+			g := ci.Common().StaticCallee()
+			a := ci.Common().Args
+			// which of the helper's parameters receive the frame and the waiter
+			var gFr, gCtx ssa.Value
+			for i, pa := range g.Params {
+				if i < len(a) && a[i] == ssa.Value(f.Params[1]) {
+					gFr = pa
+				}
+				if i < len(a) && a[i] == rv {
+					gCtx = pa
+				}
+			}
+			for _, c2 := range p.findCall(g, "(*Conn).readStream") {
+				sinks++
+				a2 := c2.Common().Args
+				okk := false
+				if ld, o, n, ok := p.loadOfField(a2[2]); ok && o == "Ctx" && n == "Response" && gCtx != nil && ld.X == gCtx {
+					okk = true
+				}
+				r.check(okk, "response sink is the waiter's", p.ipos(c2), "readStream(fr, r.Response) with r the waiter dispatch looked up", "readStream is given "+p.vdescN(a2[2], 3)+" instead of the Response of the waiter dispatch handed to "+p.fname(g))
+				r.check(gFr != nil && a2[1] == gFr, "readStream gets the same frame", p.ipos(c2), "same fr", "readStream is given another frame than the one dispatch received")
+			}
+		}
+	}
+	if sinks == 0 {
+		r.bad("response sink is the waiter's", p.pos(f.Pos()), "dispatch no longer hands the frame to readStream (directly or through a forwarding helper)")
 	}
 	for _, ci := range p.findCall(f, "(*Conn).finish") {
 		a := ci.Common().Args
